@@ -203,6 +203,10 @@ pub struct Cfg {
     pub target: Option<K>,
     pub meth: Meth,
     pub res: ResK,
+    /// alternative order of the builder calls: closure first, then
+    /// transpose(), then target(), then (undirected orderings) pre()/post()
+    #[serde(default)]
+    pub alt: bool,
 }
 
 impl Cfg {
@@ -219,7 +223,8 @@ impl Cfg {
     }
     pub fn describe(&self) -> String {
         format!(
-            "{}{}{}{}.{}",
+            "{}{}{}{}{}.{}",
+            if self.alt { "[closure-first builder order] " } else { "" },
             self.kind.name(),
             if self.transpose { ".transpose" } else { "" },
             match self.target {
@@ -594,24 +599,50 @@ macro_rules! make_pathbox {
 }
 
 macro_rules! with_methods {
-    // Apply target / transpose / method to a search builder expression and
-    // finish with `$fin`.
-    ($s:expr, $cfg:expr, $t:ident, $fe:ident, $fi:ident, $tr:tt, $tg:tt, |$b:ident| $fin:expr) => {{
-        let s = $s;
-        let s = with_methods!(@tg $tg, s, $cfg, $t);
-        let s = with_methods!(@tr $tr, s, $cfg);
-        match $cfg.meth {
-            Meth::None => {
-                let mut $b = s;
-                $fin
+    // Apply target / transpose / method (in one of two call orders) to a search
+    // builder expression, then the trailing selector tokens, and finish with `$fin`.
+    ($s:expr, [$($sel:tt)*], $cfg:expr, $t:ident, $fe:ident, $fi:ident, $tr:tt, $tg:tt, |$b:ident| $fin:expr) => {{
+        if !$cfg.alt {
+            let s = $s $($sel)*;
+            let s = with_methods!(@tg $tg, s, $cfg, $t);
+            let s = with_methods!(@tr $tr, s, $cfg);
+            match $cfg.meth {
+                Meth::None => {
+                    let mut $b = s;
+                    $fin
+                }
+                Meth::ForEach => {
+                    let mut $b = s.for_each(&mut $fe);
+                    $fin
+                }
+                Meth::Filter => {
+                    let mut $b = s.filter(&mut $fi);
+                    $fin
+                }
             }
-            Meth::ForEach => {
-                let mut $b = s.for_each(&mut $fe);
-                $fin
-            }
-            Meth::Filter => {
-                let mut $b = s.filter(&mut $fi);
-                $fin
+        } else {
+            let s = $s;
+            match $cfg.meth {
+                Meth::None => {
+                    let s = with_methods!(@tr $tr, s, $cfg);
+                    let s = with_methods!(@tg $tg, s, $cfg, $t);
+                    let mut $b = s $($sel)*;
+                    $fin
+                }
+                Meth::ForEach => {
+                    let s = s.for_each(&mut $fe);
+                    let s = with_methods!(@tr $tr, s, $cfg);
+                    let s = with_methods!(@tg $tg, s, $cfg, $t);
+                    let mut $b = s $($sel)*;
+                    $fin
+                }
+                Meth::Filter => {
+                    let s = s.filter(&mut $fi);
+                    let s = with_methods!(@tr $tr, s, $cfg);
+                    let s = with_methods!(@tg $tg, s, $cfg, $t);
+                    let mut $b = s $($sel)*;
+                    $fin
+                }
             }
         }
     }};
@@ -634,7 +665,7 @@ macro_rules! with_methods {
 }
 
 macro_rules! search_impl {
-    ($m:ident, $tr:tt, [$($pre:tt)*], [$($post:tt)*]) => {
+    ($m:ident, $tr:tt, [$($pre:tt)*] [$($presel:tt)*], [$($post:tt)*] [$($postsel:tt)*]) => {
         fn search(
             root: &Self::Node,
             cfg: &Cfg,
@@ -651,7 +682,7 @@ macro_rules! search_impl {
             let a3 = |e: &Self::Edge| (*e.0.key(), *e.1.key(), e.2);
             macro_rules! finish_search {
                 ($builder:expr) => {
-                    with_methods!($builder, cfg, t, fe, fi, $tr, yes, |b| match cfg.res {
+                    with_methods!($builder, [], cfg, t, fe, fi, $tr, yes, |b| match cfg.res {
                         ResK::Search => {
                             let r = b.search();
                             (SRes::Node(r.as_ref().map(kv)), r.into_iter().collect())
@@ -671,8 +702,14 @@ macro_rules! search_impl {
                 };
             }
             macro_rules! finish_order {
-                ($builder:expr) => {
-                    with_methods!($builder, cfg, t, fe, fi, $tr, no, |b| match cfg.res {
+                ($builder:expr, pre) => {
+                    finish_order!(@go $builder, [$($presel)*])
+                };
+                ($builder:expr, post) => {
+                    finish_order!(@go $builder, [$($postsel)*])
+                };
+                (@go $builder:expr, $selgroup:tt) => {
+                    with_methods!($builder, $selgroup, cfg, t, fe, fi, $tr, no, |b| match cfg.res {
                         ResK::Nodes => {
                             let r = b.search_nodes();
                             (SRes::Nodes(r.iter().map(kv).collect()), r)
@@ -695,8 +732,8 @@ macro_rules! search_impl {
                 Kind::Dfs => finish_search!(root.dfs()),
                 Kind::PfsMin => finish_search!(root.pfs().min()),
                 Kind::PfsMax => finish_search!(root.pfs().max()),
-                Kind::Pre => finish_order!(root.$($pre)*),
-                Kind::Post => finish_order!(root.$($post)*),
+                Kind::Pre => finish_order!(root.$($pre)*, pre),
+                Kind::Post => finish_order!(root.$($post)*, post),
             }
         }
 
@@ -718,7 +755,7 @@ macro_rules! search_impl {
             let a3 = |e: &Self::Edge| (*e.0.key(), *e.1.key(), e.2);
             macro_rules! twice_search {
                 ($builder:expr) => {
-                    with_methods!($builder, cfg, t, fe, fi, $tr, yes, |b| {
+                    with_methods!($builder, [], cfg, t, fe, fi, $tr, yes, |b| {
                         assert!(cfg.res == ResK::Path && second == ResK::Path, "harness: reuse of a search needs search_path twice");
                         let r1 = b.search_path().map(|p| make_pathbox!(p));
                         between();
@@ -728,8 +765,14 @@ macro_rules! search_impl {
                 };
             }
             macro_rules! twice_order {
-                ($builder:expr) => {
-                    with_methods!($builder, cfg, t, fe, fi, $tr, no, |b| {
+                ($builder:expr, pre) => {
+                    twice_order!(@go $builder, [$($presel)*])
+                };
+                ($builder:expr, post) => {
+                    twice_order!(@go $builder, [$($postsel)*])
+                };
+                (@go $builder:expr, $selgroup:tt) => {
+                    with_methods!($builder, $selgroup, cfg, t, fe, fi, $tr, no, |b| {
                         let mut one = |res: ResK| match res {
                             ResK::Nodes => SRes::Nodes(b.search_nodes().iter().map(kv).collect()),
                             ResK::Edges => SRes::Edges(b.search_edges().iter().map(a3).collect()),
@@ -747,8 +790,8 @@ macro_rules! search_impl {
                 Kind::Dfs => twice_search!(root.dfs()),
                 Kind::PfsMin => twice_search!(root.pfs().min()),
                 Kind::PfsMax => twice_search!(root.pfs().max()),
-                Kind::Pre => twice_order!(root.$($pre)*),
-                Kind::Post => twice_order!(root.$($post)*),
+                Kind::Pre => twice_order!(root.$($pre)*, pre),
+                Kind::Post => twice_order!(root.$($post)*, post),
             }
         }
 
@@ -766,7 +809,7 @@ macro_rules! search_impl {
             let t: K = cfg.target.unwrap_or(0);
             macro_rules! finish_path {
                 ($builder:expr) => {
-                    with_methods!($builder, cfg, t, fe, fi, $tr, yes, |b| match cfg.res {
+                    with_methods!($builder, [], cfg, t, fe, fi, $tr, yes, |b| match cfg.res {
                         ResK::Path => b.search_path().map(|p| make_pathbox!(p)),
                         ResK::Cycle => b.search_cycle().map(|p| make_pathbox!(p)),
                         _ => panic!("harness: search_path_obj needs Path or Cycle"),
@@ -794,6 +837,28 @@ macro_rules! edge_loop_impl {
         ) -> bool {
             let mut steps = 0usize;
             match which {
+                3 => {
+                    // the iterator driven by hand; size_hint() is asked before
+                    // and after every step, as adaptors like collect() do
+                    let mut it = n.$out();
+                    loop {
+                        let _ = it.size_hint();
+                        match it.next() {
+                            Some(e) => {
+                                if steps >= budget {
+                                    return false;
+                                }
+                                steps += 1;
+                                body(&e);
+                            }
+                            None => break,
+                        }
+                    }
+                    let _ = it.size_hint();
+                }
+                4 => {
+                    edge_loop_impl!(@manual_in $in_, n, steps, budget, body);
+                }
                 0 => {
                     for e in n.$out() {
                         if steps >= budget {
@@ -818,6 +883,26 @@ macro_rules! edge_loop_impl {
             }
             true
         }
+    };
+    (@manual_in none, $n:ident, $steps:ident, $budget:ident, $body:ident) => {
+        let _ = (&$n, &$steps);
+    };
+    (@manual_in $it:ident, $n:ident, $steps:ident, $budget:ident, $body:ident) => {
+        let mut it = $n.$it();
+        loop {
+            let _ = it.size_hint();
+            match it.next() {
+                Some(e) => {
+                    if $steps >= $budget {
+                        return false;
+                    }
+                    $steps += 1;
+                    $body(&e);
+                }
+                None => break,
+            }
+        }
+        let _ = it.size_hint();
     };
     (@in none, $n:ident, $steps:ident, $budget:ident, $body:ident) => {
         let _ = (&$n, &$steps);
@@ -857,8 +942,8 @@ macro_rules! directed_flavor {
             search_impl!(
                 $m,
                 yes,
-                [preorder()],
-                [postorder()]
+                [preorder()] [],
+                [postorder()] []
             );
             edge_loop_impl!(iter_out, iter_in);
 
@@ -933,8 +1018,8 @@ macro_rules! undirected_flavor {
             search_impl!(
                 $m,
                 no,
-                [order().pre()],
-                [order().post()]
+                [order()] [.pre()],
+                [order()] [.post()]
             );
             edge_loop_impl!(iter, none);
 
